@@ -3,15 +3,15 @@ module verifharness
 go 1.18
 
 require (
+	github.com/dgryski/go-spooky v0.0.0-20170606183049-ed3d087f40e2
 	github.com/facebookincubator/dns/dnsrocks v0.0.0
 	github.com/miekg/dns v1.1.50
+	github.com/repustate/go-cdb v0.0.0-20160430174706-6a418fad95e2
 )
 
 require (
-	github.com/dgryski/go-spooky v0.0.0-20170606183049-ed3d087f40e2 // indirect
 	github.com/golang/glog v1.0.0 // indirect
 	github.com/golang/mock v1.6.0 // indirect
-	github.com/repustate/go-cdb v0.0.0-20160430174706-6a418fad95e2 // indirect
 	github.com/sirupsen/logrus v1.8.1 // indirect
 	golang.org/x/net v0.0.0-20220722155237-a158d28d115b // indirect
 	golang.org/x/sync v0.0.0-20220722155255-886fb9371eb4 // indirect
